@@ -50,7 +50,7 @@ def effective_discipline(steps):
 def run(ctx):
     ctx.cov["rule"] = ("pair = every unordered pair of the 12 FeeQuote/FeeQuotes methods (and each with itself) hammered from 8 goroutines on shared objects "
                        "under the Go race detector, several repetitions with GOMAXPROCS in {2, 4, 16}; history = concurrent writers of distinct values and "
-                       "readers (reads must be values some write stored); engine = node-vector / random scripts validated concurrently on one engine vs "
+                       "readers (reads must be values some write stored); engine = node-vector / random / wide-number scripts, each case validated by three distinct transactions sharing its script objects, concurrently on one engine vs "
                        "sequentially under the detector. The TLA+ model FeeQuoteConc is instantiated with the lock discipline *recorded from the code* "
                        "through the verif hooks and model-checked for all method pairs (triples in thorough): mutual exclusion, lock balance, all calls "
                        "return, and the set of races the discipline admits (predicted); distinct = (method pair, GOMAXPROCS) / history / engine batch")
@@ -95,6 +95,13 @@ def run(ctx):
         e.update(race=race, maxprocs=mp, report=err if race else "")
         events.append(e)
     cases = c05.cases_from_vectors(ctx, ctx.pick(300, 1200)) + V.random_cases(ctx, ctx.pick(300, 3000), tag="conc")
+    # numeric operands wider than a machine word (post-Genesis big numbers), from the model's operand tables
+    fq, ft = c05.FAMILIES_QUICK, c05.FAMILIES_THOROUGH
+    c05.FAMILIES_QUICK, c05.FAMILIES_THOROUGH = ["wide"], ["wide", "shift"]
+    try:
+        cases += c05.cases_from_model(ctx, ctx.pick(300, 3000))
+    finally:
+        c05.FAMILIES_QUICK, c05.FAMILIES_THOROUGH = fq, ft
     cpath = os.path.join(ctx.tmp, "conc-cases.ndjson")
     vf.write_ndjson(cpath, cases)
     for g, mp in ctx.pick([(8, 8)], [(2, 2), (8, 8), (16, 16)]):
